@@ -12,6 +12,22 @@ def tv(extra=""):
 
 CLAIMS = {p: tv() for p in ["C01","C02","C03","C04","C05","C06","C07","C08","C09","C10","C11","C12","C13","C14","C15","C17"]}
 
+def proof(text, note, technique="Coq proof by invariant over all operation histories + translator tie + differential correspondence"):
+    return dict(category="proof", text=text, note=note, technique=technique)
+
+NOTE = ("trusted: Coq 8.16.1 kernel (vm_compute used for tie lemmas and examples, no native_compute), no axioms (Print Assumptions: closed under the global context); "
+        "the hand-written model coq/Model is tied to the source by tools/extract -> coq/Gen + coq/Tie lemmas (shape and fingerprint of every protocol function) and by the "
+        "correspondence check (harness + extracted OCaml model, ExtrOcamlBasic only); event-listener is modelled, not verified")
+
+CLAIMS["C01"] = proof(
+    "History half proved: C01_excl_hist — for every operation history (any length < 2^62, any number of futures, cancellation anywhere, every oracle stream, "
+    "borrowed and Arc flavours) at most one guard is alive, from the invariant state = 2*starved + guards. The schedule (micro-step) and happens-before halves are not yet "
+    "proved; they rest on the pinned site order/orderings (Tie_Mutex) and the correspondence check. " + CORR, NOTE)
+CLAIMS["C03"] = proof(
+    "Proved for every history and every initial count / add_permits argument in N: conservation count + alive + forgotten = initial + added (C03_conserve, hence never over-issues), "
+    "try_acquire exact (C03_try_exact), drop returns exactly one, forget none, add_permits(n) exactly n. Hypothesis stated in the theorems: initial + added < 2^64 (the code has no overflow check). "
+    "Schedule half not yet proved. " + CORR, NOTE)
+
 NOT_APPLICABLE = [
     dict(property_id="C16", reason="check under construction (marker tables from the translator + rustc probes); not claimed yet"),
 ]
